@@ -690,7 +690,7 @@ fn monitors<M: RawMutex + 'static>(chan: &Chan<M>, m: &Model, slots: &[Slot<RFut
             .enumerate()
             .map(|(i, s)| SlotView { queue: 0, idx: i as u8, range: s.range(), pending: s.pending(), woken: s.woken() })
             .collect();
-        check_list_queues(snap, &[0], &views, run, order);
+        check_list_queues(snap, &[0], &views, run, order, "C13");
     }
     if run.want_fp {
         let mut h = H128::new();
